@@ -17,7 +17,7 @@ PKGS = ['foo', 'bar', 'baz-qux', 'libx', 'a1', 'lib', 'foo2']
 CONTENT = [b'', b'x', b'EAPI=8\n', b'<pkgmetadata/>\n', b'patch data\n' * 3, b'0123456789' * 20]
 
 
-def gen_repo(r, portable=False, with_dist=None, ignored_dirs=True, complete=False):
+def gen_repo(r, portable=False, with_dist=None, ignored_dirs=True, complete=False, gz_dist=False):
     """an ebuild-repository-shaped tree; returns a Case whose meta carries the role of every directory"""
     c = GT.Case()
     t = ET.Tree()
@@ -59,7 +59,12 @@ def gen_repo(r, portable=False, with_dist=None, ignored_dirs=True, complete=Fals
                 mkfile(d + '/ChangeLog', (b'%d: changes\n' % r.randint(0, 99)) * r.choice([6000, 7000, 11000]) if big else None)
             want_dist = with_dist if with_dist is not None else (r.random() < 0.3)
             if want_dist:
-                t.add_file(d + '/Manifest', b'DIST %s-1.tar.gz 5 BLAKE2B 00 SHA512 11\n' % pkg.encode())
+                dist = b'DIST %s-1.tar.gz 5 BLAKE2B 00 SHA512 11\n' % pkg.encode()
+                if gz_dist and r.random() < 0.35:
+                    # the package Manifest is found compressed (e.g. written earlier under another profile)
+                    t.add_file(d + '/Manifest.gz', ET.compress('gz', dist * r.choice([1, 1, 6])))
+                else:
+                    t.add_file(d + '/Manifest', dist)
     if r.random() < 0.7 or complete:
         mkdir('eclass', 'eclass')
         for k in range(r.randint(0, 3)):
@@ -186,8 +191,10 @@ def check_created(c, files, profile, overrides):
         if b in ('Manifest', 'Manifest.gz', 'Manifest.bz2', 'Manifest.xz', 'Manifest.lzma'):
             mdirs.setdefault(os.path.dirname(p), []).append(p)
     had = {os.path.dirname(p) for p, _ in t.files() if os.path.basename(p) == 'Manifest'}
+    # Manifests found compressed: they stay (as a Manifest of that directory); whether they stay compressed is the watermark's business
+    had_gz = {os.path.dirname(p): t.nodes[ino]['data'] for p, ino in t.files() if os.path.basename(p).startswith('Manifest.')}
     want = expected_manifest_dirs(c) if profile != 'default' else {''}
-    want |= had
+    want |= had | set(had_gz)
     for d in sorted(set(mdirs) | want):
         if (d in mdirs) != (d in want):
             probs.append(f'Manifest {"missing in" if d in want else "unexpected in"} {d!r}')
@@ -205,7 +212,7 @@ def check_created(c, files, profile, overrides):
             continue
         raw = OX.plain_bytes(p, files[p])
         # default IGNORE entries of a newly created Manifest
-        if d not in had and profile != 'default':
+        if d not in had and d not in had_gz and profile != 'default':
             for ig in DEFAULT_IGNORES.get(d, []):
                 if not any(e[0] == 'IGNORE' and e[1] == ig for e in ents):
                     probs.append(f'{p}: default IGNORE {ig} missing')
@@ -230,9 +237,10 @@ def check_created(c, files, profile, overrides):
             compressed = ET.suffix_of(os.path.basename(p)) is not None
             has_ebuild = any(e[0] == 'EBUILD' for e in ents)
             expect = len(raw) >= wm and not (profile == 'old-ebuild' and has_ebuild)
-            if compressed != expect and d not in had:
+            rewritten = d not in had_gz or files[p] != had_gz[d]
+            if compressed != expect and d not in had and rewritten:
                 probs.append(f'{p}: {len(raw)} bytes uncompressed, watermark {wm}: stored {"compressed" if compressed else "plain"}')
-            if compressed and ET.suffix_of(os.path.basename(p)) != fmt:
+            if compressed and ET.suffix_of(os.path.basename(p)) != fmt and d not in had_gz:
                 probs.append(f'{p}: compressed as {ET.suffix_of(os.path.basename(p))}, expected {fmt}')
         if d == '' and p != 'Manifest':
             probs.append(f'top-level Manifest stored as {p}')
@@ -245,7 +253,7 @@ def c19(ctx):
     n = 500 if quick else 4000
     cases = []
     for _ in range(n):
-        c = gen_repo(r)
+        c = gen_repo(r, gz_dist=True)
         profile = r.choice(['ebuild', 'ebuild', 'old-ebuild', 'old-ebuild', 'default'])
         ov = {}
         argv = ['create', '-p', profile]
